@@ -172,11 +172,28 @@ def main(pid, run):
     ap.add_argument("--seed", type=int, default=int(os.environ.get("VERIF_SEED", "0") or 0))
     ap.add_argument("--replay", default=None)
     a = ap.parse_args(sys.argv[2:] if len(sys.argv) > 1 and sys.argv[1] == pid else sys.argv[1:])
+    target = None
+    if a.replay:
+        # re-run the check with the tier and seed of the recorded violation and report whether THAT case violates again
+        with open(a.replay) as f:
+            target = json.load(f)
+        a.tier, a.seed = target.get("tier", a.tier), int(target.get("seed", a.seed))
     ctx = Ctx(pid, a.tier, a.seed)
     ctx.replay = a.replay
     try:
         use_repo()
         run(ctx)
+        if target is not None:
+            same = [v for v in ctx.violations if v["case"] == target.get("case")]
+            alike = [v for v in ctx.violations if v["what"] == target.get("what")]
+            hit = same or alike
+            print("REPLAY property=%s file=%s: %s" % (pid, a.replay, (
+                "reproduced - %s (observed %s)" % (hit[0]["what"], json.dumps(hit[0]["observed"], default=str)[:300])) if hit
+                else "not reproduced on the current tree (%d other violation(s))" % len(ctx.violations)))
+            if hit:
+                print("VIOLATION property=%s replay=%s" % (pid, a.replay))
+            sys.stdout.flush()
+            return 1 if hit else 0      # a replay does not rewrite the evidence file
         rc = ctx.finish()
     except MachineryError as e:
         print("MACHINERY-FAILURE property=%s: %s" % (pid, e))
